@@ -66,17 +66,22 @@ SPEC = {
                         "set/delete of a tag is not modelled in Lean (oracle only)"],
     },
     "C04": {
-        "LEAN": {"modules": ["GfaProofs.Bridge.Regex", "GfaProofs.Lemmas.Regex", "GfaProofs.C20"],
-                 "support": ["GfaProofs.Lemmas.RegexLang", "GfaModel.Grammar", "GfaModel.Field", "GfaModel.Regex"],
-                 "theorems": ["Gfa.RE.accepts_iff", "Gfa.C20.int_accept_iff", "Gfa.C20.accept_Z_iff", "Gfa.C20.hex_odd_rejected",
+        "LEAN": {"modules": ["GfaProofs.Bridge.Regex", "GfaProofs.Lemmas.Regex", "GfaProofs.C20", "GfaProofs.Bridge.LineFmt", "GfaProofs.C04Line"],
+                 "support": ["GfaProofs.Lemmas.RegexLang", "GfaModel.Grammar", "GfaModel.Field", "GfaModel.Regex", "GfaModel.LineFmt"],
+                 "theorems": ["Gfa.C04.acceptFields_iff", "Gfa.C04.accept_rewrite", "Gfa.C04.accept_too_few", "Gfa.C04.accept_dup_tag",
+                              "Gfa.C04.accept_predefined_type", "Gfa.Bridge.LineFmt.posfields_table", "Gfa.Bridge.LineFmt.predefined_table",
+                              "Gfa.Bridge.LineFmt.classes_complete", "Gfa.RE.accepts_iff", "Gfa.C20.int_accept_iff", "Gfa.C20.accept_Z_iff", "Gfa.C20.hex_odd_rejected",
                               "Gfa.C20.accept_intStr", "Gfa.C20.numarr_range_rejected"] +
                              ["Gfa.Bridge.Regex.re_" + n for n in
                               ["A", "i", "f", "Z", "J", "H", "B", "alnGfa1", "alnListGfa1", "oidListGfa1", "posGfa1", "segNameGfa1",
                                "seqGfa1", "pathNameGfa1", "idGfa2", "oidGfa2", "idListGfa2", "oidListGfa2", "optIdGfa2", "posGfa2",
                                "customRecordType", "seqGfa2", "optInt", "cigar1", "cigar2", "tagName"]]},
         "ASSUMPTIONS": ["JSON well-formedness of J payloads and the float value conversion are Python built-ins outside the model",
-                        "line- and document-level acceptance (arity, tag uniqueness, predefined tag types, cross-field rules) is decided by "
-                        "the independent python recogniser (oracle) and by the field-level correspondence; the theorems cover the field grammar"],
+                        "line-level acceptance (arity, positional datatypes, tag syntax, unique tag names, predefined tag types, the cross-field rules "
+                        "LN = |sequence|, path overlap count, begin <= end) is modelled (LineFmt.acceptLine), tied by the bridged class tables "
+                        "POSFIELDS/DATATYPE/PREDEFINED_TAGS and by a correspondence on valid lines and their mutations, and characterised clause by "
+                        "clause (acceptFields_iff); document-level rules (`$` only at a segment's last position, referenced identifiers defined, "
+                        "rGFA restrictions) and explicit validate() are decided by the independent python recogniser (oracle)"],
     },
     "C06": {
         "LEAN": {"modules": ["GfaProofs.Bridge.Geometry", "GfaProofs.Bridge.Cigar", "GfaProofs.C06"],
